@@ -473,18 +473,29 @@ def yang(check, prog, canon):
     it = Interp(prog, max_depth=1, opaque=[sf + 'log_der_13', sf + 'Qratio',
                                            sf + 'riccati_psi_xi', MSL + 'nstop'])
     res = it.analyze(q)
-    lps = [l for l in it.loops.values() if l['func'] == q and 'hans' in l['vars']]
+    # the two recurrences are named by their role: H^a is the loop-carried value
+    # the returned a_n is built from, H^b the one b_n is built from
+    v0 = res.ret
+    nA = nB = None
+    if v0[0] == 'call' and v0[1] == 'numpy.array' and v0[2] and v0[2][0][0] == 'list' \
+            and len(v0[2][0][1]) == 2:
+        la = {x[1] for x in subterms(v0[2][0][1][0]) if x[0] == 'loop'}
+        lb = {x[1] for x in subterms(v0[2][0][1][1]) if x[0] == 'loop'}
+        if len(la) == 1 and len(lb) == 1 and la != lb:
+            nA, nB = next(iter(la)), next(iter(lb))
+    lps = [l for l in it.loops.values() if l['func'] == q and nA in l['vars']
+           and nB in l['vars']]
     if len(lps) != 1:
         check.bad('H3-yang-recursion', 'scatcoeffs_multi', 'layer loop not found', loc)
         return
     lp = lps[0]
     c0 = Canon()
-    lay = [x for x in subterms(lp['vars']['hans'][1]) if x[0] == 'elem'][0]
-    marr = [x for x in subterms(lp['vars']['hans'][1]) if x[0] == 'idx' and x[2] == lay]
+    lay = [x for x in subterms(lp['vars'][nA][1]) if x[0] == 'elem'][0]
+    marr = [x for x in subterms(lp['vars'][nA][1]) if x[0] == 'idx' and x[2] == lay]
     ma = None
     xa = None
     pm, px_ = [sym(a.arg) for a in fd.args.args[:2]]
-    for x in subterms(lp['vars']['hans'][1]):
+    for x in subterms(lp['vars'][nA][1]):
         if x[0] == 'bin' and x[1] == '*' and x[2][0] == 'idx' and x[3][0] == 'idx' and \
                 x[2][2] == lay and x[3][2] == lay:
             # the first positional parameter is the index array, the second the
@@ -496,11 +507,11 @@ def yang(check, prog, canon):
         check.bad('H3-yang-recursion', 'scatcoeffs_multi',
                   'cannot identify m_l x_l in the layer loop', loc)
         return
-    Ha, Hb = intern(('phi', 'hans', lay[2])), intern(('phi', 'hbns', lay[2]))
+    Ha, Hb = intern(('phi', nA, lay[2])), intern(('phi', nB, lay[2]))
     env = {'m': ma, 'x': xa, 'l': lay, 'Ha': Ha, 'Hb': Hb, 'nstop': None}
-    ld = [c for c in subterms(lp['vars']['hans'][1]) if c[0] == 'call' and
+    ld = [c for c in subterms(lp['vars'][nA][1]) if c[0] == 'call' and
           c[1] == sf + 'log_der_13']
-    qr = [c for c in subterms(lp['vars']['hans'][1]) if c[0] == 'call' and
+    qr = [c for c in subterms(lp['vars'][nA][1]) if c[0] == 'call' and
           c[1] == sf + 'Qratio']
     z1 = expr_term(prog, 'm[l]*x[l-1]', env)
     z2 = expr_term(prog, 'm[l]*x[l]', env)
@@ -520,20 +531,20 @@ def yang(check, prog, canon):
     Gt2 = '(m[l-1]*Hb - m[l]*D3z1)'
     wHa = expr_term(prog, '(%s*D1z2 - Q*%s*D3z2) / (%s - Q*%s)' % (G2, G1, G2, G1), env)
     wHb = expr_term(prog, '(%s*D1z2 - Q*%s*D3z2) / (%s - Q*%s)' % (Gt2, Gt1, Gt2, Gt1), env)
-    check.require(c0.equal(lp['vars']['hans'][1], wHa), 'H3-yang-recursion', 'H^a_n',
+    check.require(c0.equal(lp['vars'][nA][1], wHa), 'H3-yang-recursion', 'H^a_n',
                   'Yang (2003) eqs. 24, 26, 27: H^a in layer l from layer l-1 (m_{l-1} '
                   'and m_l)', loc,
-                  fail_detail='H^a step = %s' % c0.show(lp['vars']['hans'][1])[:300])
-    check.require(c0.equal(lp['vars']['hbns'][1], wHb), 'H3-yang-recursion', 'H^b_n',
+                  fail_detail='H^a step = %s' % c0.show(lp['vars'][nA][1])[:300])
+    check.require(c0.equal(lp['vars'][nB][1], wHb), 'H3-yang-recursion', 'H^b_n',
                   'Yang (2003) eqs. 25, 28, 29', loc,
-                  fail_detail='H^b step = %s' % c0.show(lp['vars']['hbns'][1])[:300])
+                  fail_detail='H^b step = %s' % c0.show(lp['vars'][nB][1])[:300])
     # Q ratio arguments and the loop range / start
     okq = c0.equal(qr[0][2][0], z1) and c0.equal(qr[0][2][1], z2)
     rng = lp['iter']
     okr = rng[0] == 'call' and rng[1] == 'numpy.arange' and rng[2][0] == num(1) and \
         rng[2][1] == ('attr', ma, 'size')
-    h0 = lp['vars']['hans'][0]
-    okh = h0 == lp['vars']['hbns'][0] and h0[0] == 'idx' and h0[2] == num(0) and \
+    h0 = lp['vars'][nA][0]
+    okh = h0 == lp['vars'][nB][0] and h0[0] == 'idx' and h0[2] == num(0) and \
         h0[1][0] == 'call' and h0[1][1] == sf + 'log_der_13' and \
         c0.equal(h0[1][2][0], expr_term(prog, 'm[0]*x[0]', env))
     check.require(okq and okr and okh, 'H3-yang-recursion', 'start and range',
@@ -547,8 +558,8 @@ def yang(check, prog, canon):
         return
     an, bn = [x[1] if x[0] == 'idx' else x for x in v[2][0][1]]
     px = [c for c in subterms(an) if c[0] == 'call' and c[1] == sf + 'riccati_psi_xi']
-    HA = [x for x in subterms(an) if x[0] == 'loop' and x[1] == 'hans']
-    HB = [x for x in subterms(bn) if x[0] == 'loop' and x[1] == 'hbns']
+    HA = [x for x in subterms(an) if x[0] == 'loop' and x[1] == nA]
+    HB = [x for x in subterms(bn) if x[0] == 'loop' and x[1] == nB]
     if not px or not HA or not HB:
         check.bad('H3-seam', 'scatcoeffs_multi closing',
                   'closing formulas do not use the recursion results', loc)
